@@ -302,7 +302,7 @@ def expected_plain(m: dict, recs: list[int], cut: int | None) -> bytes:
 
 class CutTransport(tr_abc.AsyncStreamTransport):
     def __init__(self, peer: Peer, cut: int | None, frag_seed: int, *, max_frag: int = 4096, log: list[str] | None = None,
-                 eof_after_peer: bool = True) -> None:
+                 eof_after_peer: bool = True, burst: bool = False, chunks: list[int] | None = None) -> None:
         super().__init__()
         self._be = env.backend()
         self.peer = peer
@@ -320,6 +320,11 @@ class CutTransport(tr_abc.AsyncStreamTransport):
         self.eof_after_peer = eof_after_peer      # report EOF once the peer's script is over and everything was delivered
         self.send_error: BaseException | None = None
         self._parked: asyncio.Future | None = None
+        # delivery control (close cases with unread data): `burst` = every read of the wrapped transport returns everything that
+        # is available (the peer's records written in one burst arrive in ONE transport read); `chunks` = sizes of the successive
+        # reads from the end of the peer's handshake flight on (no read crosses that offset), then `burst` / the PRNG again
+        self.burst = burst
+        self.chunks = list(chunks) if chunks is not None else None
 
     def backend(self):
         return self._be
@@ -386,13 +391,25 @@ class CutTransport(tr_abc.AsyncStreamTransport):
             return 0
         with memoryview(buffer) as mv:
             mv = mv.cast("B") if mv.itemsize != 1 else mv
-            hi = min(avail, mv.nbytes, self.max_frag)
-            n = self.rng.randint(1, hi) if self.rng.random() < 0.8 else hi
+            n = self._pick(min(avail, mv.nbytes))
             mv[:n] = self.peer.stream[self.delivered:self.delivered + n]
         self.delivered += n
         self.log.append(f"t recv {n}")
         await asyncio.sleep(0)
         return n
+
+    def _pick(self, room: int) -> int:
+        """size of the next delivery (1 <= n <= room = min(available, buffer size))"""
+        if self.chunks is not None:
+            hs_end = self.peer.hs_end
+            if hs_end is not None and self.delivered < hs_end:
+                room = min(room, hs_end - self.delivered)
+            elif hs_end is not None and self.chunks:
+                return max(1, min(room, self.chunks.pop(0)))
+        if self.burst:
+            return room
+        hi = min(room, self.max_frag)
+        return self.rng.randint(1, hi) if self.rng.random() < 0.8 else hi
 
     async def recv(self, bufsize: int) -> bytes:
         buf = bytearray(bufsize)
